@@ -125,6 +125,10 @@ def handle : Handler := fun fn args =>
       .ok (optNamesToJson (nnxAddAxis (← asInt (← argAt args 0)) (← nameOfJson (← argAt args 1)) (← optNamesOfJson (← argAt args 2))))
   | "nnx_remove_axis" => do
       liftE optNamesToJson (nnxRemoveAxis (← asInt (← argAt args 0)) (← nameOfJson (← argAt args 1)) (← optNamesOfJson (← argAt args 2)))
+  | "nnxmeta_add_axis" => do
+      liftE optNamesToJson (nnxMetaAddAxis (← asInt (← argAt args 0)) (← paramsOfJson (← argAt args 1)) (← optNamesOfJson (← argAt args 2)))
+  | "nnxmeta_remove_axis" => do
+      liftE optNamesToJson (nnxMetaRemoveAxis (← asInt (← argAt args 0)) (← paramsOfJson (← argAt args 1)) (← optNamesOfJson (← argAt args 2)))
   | "stack_at" => do
       match stackAt (← asInt (← argAt args 0)) (← asNat (← argAt args 1)) (← asList asNat (← argAt args 2)) with
       | some ds => .ok (natsToJson ds)
